@@ -10,7 +10,7 @@ NT = len(W.TEMPLATES) if thorough() else 6       # the two widest templates (7-8
 
 
 def kinds_for(ka, ko, kx, ky=0):
-    return {"a": ka, "m3": ka, "o": ko, "l": ko, "n": ko, "m1": ko, "m2": ko, "x": kx, "y": ky}
+    return {"a": ka, "m3": ka, "o": ko, "l": ko, "n": ko, "m1": ko, "m2": ko, "x": kx, "y": ky, "dm": 2 if kx == 2 else 1}      # the deferred value of the default-resolved method fails with ResolverError when x does
 
 
 def make_chooser(sched):
@@ -47,6 +47,7 @@ def agree(base, got, multi_unexpected):
 def _schedules(t: int, ka: int, ko: int, kx: int, nn: bool, cfg: int, s0: int, s1: int, s2: int, s3: int, s4: int, s5: int, s6: int = 0, s7: int = 0, shared: bool = False, ex: int = 0, nested: bool = False) -> bool:
     """
     pre: not nested or (not shared and ex == 0 and (ka == 1 or ko == 1 or kx == 1) and (thorough() or (t <= 2 and not nn and ka == 1 and ko == 1 and kx == 1)))
+    pre: t != 10 or thorough() or (ka == 1 and ko == 1 and kx <= 2 and not shared and not nested)
     pre: 0 <= ex < 7 and (ex == 0 or ((ka == 3 or ko == 3 or kx == 3) and not shared))
     pre: not shared or (ka == 1 and ko == 1 and kx == 1) or (thorough() and t < 6)
     pre: 0 <= t < len(W.TEMPLATES) and (t < NT or t >= 8) and 0 <= ka <= 3 and 0 <= ko <= 3 and 0 <= kx <= 3 and 0 <= cfg <= 3
